@@ -479,7 +479,7 @@ func genOrfSeq(r *gen.Rand) string {
 		s = strings.ToLower(s)
 	}
 	if r.Chance(0.1) {
-		s = strings.ReplaceAll(s, "T", "U")
+		s = strings.ReplaceAll(strings.ReplaceAll(s, "T", "U"), "t", "u") // RNA in either case
 	}
 	return s
 }
@@ -793,7 +793,8 @@ func classifyStuck(dump string) (bool, string) {
 			continue
 		}
 		// the goroutines started by Phase, and the wrapper's own sequence producer (it may be sleeping by plan)
-		if !strings.Contains(b, "align.(*phaser).Phase.func") && !strings.Contains(b, "(*wbag).SequencesChan.func") {
+		// ... and the goroutine in which Phase itself runs, as long as it has not returned
+		if !strings.Contains(b, "align.(*phaser).Phase.func") && !strings.Contains(b, "(*wbag).SequencesChan.func") && !strings.Contains(b, "align.(*phaser).Phase(") {
 			continue
 		}
 		workers++
@@ -825,10 +826,50 @@ func runScheduled(pc phaseCase, cpus int, pl plan) schedResult {
 	sh := &shared{rec: rec, pl: pl}
 	orfs, seqs := pc.bags()
 	out := schedResult{rec: rec}
-	ch, err := pc.phaser(cpus).Phase(orfs, &wbag{SeqBag: seqs, sh: sh})
-	if err != nil {
-		out.err = err
-		return out
+	// Phase itself runs in a goroutine: a Phase that never hands the stream back (e.g. waiting for its workers
+	// before anybody can read their results) is probed like a stream that never closes
+	type phaseRet struct {
+		ch  chan align.PhasedSequence
+		err error
+	}
+	done := make(chan phaseRet, 1)
+	go func() {
+		ch, err := pc.phaser(cpus).Phase(orfs, &wbag{SeqBag: seqs, sh: sh})
+		done <- phaseRet{ch, err}
+	}()
+	var ch chan align.PhasedSequence
+	for ch == nil {
+		var ret *phaseRet
+		tm := time.NewTimer(300 * time.Millisecond)
+		select {
+		case r := <-done:
+			tm.Stop()
+			ret = &r
+		case <-tm.C:
+			before := rec.seq.Load()
+			buf := make([]byte, 1<<20)
+			dump := string(buf[:runtime.Stack(buf, true)])
+			st, why := classifyStuck(dump)
+			if !st || rec.inflight.Load() != 0 || rec.seq.Load() != before {
+				continue
+			}
+			select {
+			case r := <-done:
+				ret = &r
+			default:
+				out.stuck, out.why, out.dump = true, "Phase does not return: "+why, dump
+				return out
+			}
+		}
+		if ret.err != nil {
+			out.err = ret.err
+			return out
+		}
+		ch = ret.ch
+		if ch == nil {
+			out.err = fmt.Errorf("Phase returned a nil channel and no error")
+			return out
+		}
 	}
 	recv := func(ph align.PhasedSequence, ok bool) bool { // returns true when the stream is closed
 		if !ok {
